@@ -46,7 +46,7 @@ fn main() {
             if !line.starts_with("\"{") {
                 continue;
             }
-            let v: J = match serde_json::from_str::<String>(&line).ok().and_then(|s| serde_json::from_str(&s).ok()) {
+            let v: J = match serde_json::from_str::<String>(&line).ok().and_then(|s| coset_verif_harness::json_deep(&s)) {
                 Some(v) => v,
                 None => continue,
             };
